@@ -54,7 +54,13 @@ def frag_set_case(rng):
         if coarse:
             text, _ = M.render_coarse_fragment(rng, g, list(g.nodes), desc)
         else:
-            text = M.render_fragment(rng, g, list(g.nodes), desc, opts={'explicit_single': 0.0})['text']
+            r_ = M.render_fragment(rng, g, list(g.nodes), desc, opts={'explicit_single': 0.0})
+            text = r_['text']
+            if rng.random() < 0.2:
+                # explicitly written (and sometimes annotated) hydrogens are atoms of the fragment: they must come back
+                text = M.with_explicit_hydrogens(rng, g, r_['tokens'])
+                if '[H' in text:
+                    feats.add('explicit_hydrogen_atoms')
         frs['T%d' % i] = text
     return dict(kind='fragset', coarse=coarse, string='{' + ','.join('#%s=%s' % kv for kv in frs.items()) + '}',
                 features=sorted(feats), ndesc=nd)
